@@ -59,6 +59,7 @@ def generate(g, ex):
     i = mt.end() - 1
     tblock = text[i + 1:ex.match_brace(text, i)]
     for name, callee in (('remove', 'remove_unchecked'), ('swap_remove', 'swap_remove_unchecked')):
+        g.default_not_overridden('Remove', name)
         f = ex.find_fn(tblock, name, i + 1, text)
         stats = {}
         body = ex.normalize(f['body'])
